@@ -39,3 +39,18 @@ Tactic Notation "check_inv" hyp(H) "as" ident(Hb) :=
   | (if ?b then _ else None) = Some _ => destruct b eqn:Hb; [|discriminate H]
   | (if ?b then None else _) = Some _ => destruct b eqn:Hb; [discriminate H|]
   end.
+
+(** Exhaustive inversion of a successful monadic computation [H : ... = Some _]:
+    splits every bind / if / match on the way.  Only for goals that are closed by computation
+    (frame properties); arithmetic proofs name their intermediate values with [bind_inv]. *)
+Ltac inv_step H :=
+  lazymatch type of H with
+  | Some _ = Some _ => inversion H; subst; clear H
+  | None = Some _ => discriminate H
+  | bind ?m _ = Some _ =>
+      let a := fresh "a" in let E := fresh "E" in
+      destruct m as [a|] eqn:E; [cbn [bind] in H | discriminate H]
+  | (if ?b then _ else _) = Some _ => let E := fresh "E" in destruct b eqn:E
+  | (match ?x with _ => _ end) = Some _ => let E := fresh "E" in destruct x eqn:E
+  end.
+Ltac inv_all H := repeat (inv_step H).
